@@ -278,6 +278,11 @@ func (r *FeatureLocal) SetWriteApprovalTimeout(duration time.Duration) {
 }
 
 func (r *FeatureLocal) CleanWriteApprovalCaches(ski string) {
+	// the tallies are guarded by muxWriteReceived, the pending approvals by
+	// muxResponseCB; same order as in ApproveOrDenyWrite
+	r.muxWriteReceived.Lock()
+	defer r.muxWriteReceived.Unlock()
+
 	r.muxResponseCB.Lock()
 	defer r.muxResponseCB.Unlock()
 
